@@ -80,6 +80,7 @@ def main():
             pkg = "./" + os.path.dirname(placed[0]) if os.path.dirname(placed[0]) else "."
             cmd = f"go test -vet=off -count=1 -run 'Demo|demo' {pkg}"
         cmd = re.sub(r"export [^;&]*[;&]+\s*", "", cmd)
+        cmd = re.split(r"\s{2,}|\s\(", cmd)[0].strip()
         res["demo_cmd"] = cmd
         rc1, out1 = sh(cmd, wt, timeout=900)
         res["demo_fails_with_change"] = rc1 != 0
